@@ -120,11 +120,13 @@ def rule_relative_path(ctx, rep):
         writes = site_writes(ctx, fn)
         wpaths = {unparse(pv.root(w["path"])) for w in writes if w["path"] is not None}
         for c in changeset_calls(ctx, fn):
+            r_ = ctx.resolver(fn)
             p = kwarg(c, "path")
+            p = r_.expand(p) if p is not None else None
             ok = False
             why = "path is not of the form str(P.relative_to(D))"
-            if isinstance(p, ast.Call) and call_name(p) == "str" and p.args and isinstance(p.args[0], ast.Call) and last_attr(p.args[0].func) == "relative_to":
-                rel = p.args[0]
+            if isinstance(p, ast.Call) and call_name(p) == "str" and p.args and isinstance(r_.expand(p.args[0]), ast.Call) and last_attr(r_.expand(p.args[0]).func) == "relative_to":
+                rel = r_.expand(p.args[0])
                 base = unparse(pv.root(rel.func.value))
                 d = rel.args[0] if rel.args else None
                 d_ok = isinstance(d, ast.Attribute) and d.attr in ("directory", "parent_directory")
